@@ -60,6 +60,9 @@ class Scheduler {
   std::mt19937_64 rng;
   std::function<std::string()> snapshot;      // projected state as JSON (called with all threads parked)
   std::function<Op(int, int, const void *, long)> naming;  // (thread, kind, obj, arg) -> Op
+  // called (with every thread parked) when no thread is enabled or the script cannot be followed; the
+  // drivers print what they have and _exit: continuing in-process after tearing threads down is fragile
+  std::function<void()> on_abort;
   // results
   std::vector<Step> steps;
   bool deadlock = false, script_mismatch = false, bad_unlock = false;
@@ -206,6 +209,7 @@ class Scheduler {
         if (!all_done) {
           deadlock = true;
           error = "deadlock: no enabled thread";
+          if (on_abort) on_abort();
           aborted = true;
           cv.notify_all();
         }
@@ -219,6 +223,7 @@ class Scheduler {
         if (!ok) {
           script_mismatch = true;
           error = "script step " + std::to_string(spos - 1) + ": thread " + std::to_string(c) + " is not enabled";
+          if (on_abort) on_abort();
           aborted = true;
           cv.notify_all();
           return;
